@@ -20,6 +20,8 @@ def index_object(kind, n):
         return 0
     if kind == "im1":
         return -1
+    if kind == "imn":
+        return -n if n else -1
     if kind == "iout":
         return n
     if kind == "s02":
